@@ -695,7 +695,14 @@ _ITEMS = []      # filled before the worker processes are forked; workers receiv
 
 
 def _replay_index(i):
-    return _replay_group(_ITEMS[i])
+    """never raises: an exception object of frappy cannot be unpickled in the parent (it never imports frappy),
+    and a real module that cannot be built or driven for a legal layout is an observation, not a harness error"""
+    item = _ITEMS[i]
+    try:
+        return _replay_group(item)
+    except Exception as e:
+        return {'step': 0, 'action': {'act': 'init'}, 'expected': [], 'observed': {'exception': repr(e)[:300]},
+                'vias': [], 'variant': item[1], 'symptom': 'exception outside an access method: ' + type(e).__name__}
 
 
 def _parse_behaviours(r):
@@ -734,6 +741,14 @@ def _diff(bad):
 # ------------------------------------------------------------------ code -> spec
 
 def _random_trace(arg):
+    """-> trace (list of events) or, when the real modules cannot be built / driven, {'broken': description}"""
+    try:
+        return _random_trace1(arg)
+    except Exception as e:
+        return {'broken': 'exception outside an access method: ' + type(e).__name__, 'detail': repr(e)[:300]}
+
+
+def _random_trace1(arg):
     sub, seed, n = arg
     rnd = random.Random(seed)
     variant = rnd.randrange(1 << 16)
@@ -894,6 +909,12 @@ def run(chk):
     futs = {}
     for m in SUBS:     # validated by TLC while the replays run
         sel = [i for i, a in enumerate(targs) if a[0] == m]
+        for i in sel:
+            if isinstance(traces[i], dict):     # the real modules could not be built for this legal layout
+                chk.impl_traces += 1
+                chk.violation({'module': m, 'op': 'init', 'symptom': traces[i]['broken'], 'clause': 'trace'},
+                              {'sub': m, 'args': targs[i], **traces[i]})
+        sel = [i for i in sel if not isinstance(traces[i], dict)]
         batch = [traces[i] for i in sel]
         # binding self-test: the same trace with one observed field falsified must be rejected
         bad = json.loads(json.dumps(batch[0]))
@@ -971,6 +992,9 @@ def replay(chk, rep):
                 break
     else:
         again = _random_trace(tuple(d['args']))      # re-executed on the real modules
+        if isinstance(again, dict) or 'trace' not in d:
+            print(again)
+            return 0
         for e, old in zip(again[:d['failed_at']], d['trace']):
             print(e, '' if e == old else '   (recorded: %r)' % old)
         print('event', d['failed_at'], 'was not explained by', sub, '- validating the re-execution:')
